@@ -82,6 +82,7 @@ type FuncCtx struct {
 	gerrIdx  int
 	pendingFacts []string
 	rootCon  *Contract
+	lastMapRange *ssa.Range
 	addingAxioms bool
 	axiomDone map[int]bool
 	rootFn   *ssa.Function
